@@ -57,7 +57,7 @@ cb_dnsbl(const struct userconf *ds, const char **logmsg, enum config_domain *t)
 			const char *logmess[] = { "not rejected message to <", THISRCPT, "> from <", MAILFROM,
 						"> from IP [", xmitstat.remoteip, "] {listed in ", a[i], " from ",
 						blocktype[*t], " dnsbl, but whitelisted by ",
-						c[i], " from ", blocktype[u], " whitelist}", NULL };
+						c[j], " from ", blocktype[u], " whitelist}", NULL };
 			log_writen(LOG_INFO, logmess);
 			errno = 0; /* just to be sure */
 		} else if (!errno) {
